@@ -135,7 +135,7 @@ def rule_inside(chk, cvar):
     return gv, list(resumers)
 
 
-def rule_transparent(chk, cvar, gv, resumers):
+def rule_transparent(chk, cvar, gv, resumers, only_close_forwarding=False):
     ctx = chk.ctx
     dec, w = _wrapper(chk)
     cfg = ctx.cfg(w)
@@ -256,6 +256,9 @@ def rule_transparent(chk, cvar, gv, resumers):
                 problems.append("a handler for %s surrounds the resumption: exceptions of the generator do not reach the driver unchanged" % names)
     if not trs:
         problems.append("no StopIteration handler around the resumption")
+    if only_close_forwarding:
+        # (used by C03) only what decides whether an action spanning a yield gets its end message
+        problems = [p_ for p_ in problems if "catch-all" in p_ or "a handler for" in p_]
     chk.req(not problems, "C15.transparent", "wrapper:values-and-exceptions-cross-unchanged", chk.where(w),
             good="yielded/sent values, thrown exceptions, close() and the return value are forwarded unchanged", fail="; ".join(problems), sites=len(cfg.live))
 
